@@ -507,3 +507,12 @@ SPECS["C02"]["queries"] += [
       bounds="gvt.h stamping/receiving functions for every rank < 4, every thread id < 4096 (the real MAX_THREADS), both colours at send and at cancel time, sequence numbers < 2^16"),
 ]
 SPECS["C02"]["encodes"] += ["gvt/gvt.h:gvt_remote_msg_send", "gvt_remote_anti_msg_send", "gvt_remote_msg_receive", "gvt_remote_anti_msg_receive"]
+
+SPECS["C02"]["queries"] += [
+    Q("mpi_wire_p%d" % p, "c02_mpi.c", defs={"PSZ": p, "VERIF_MAX_NODES": 4, "VERIF_MAX_THREADS_EXP": 12}, stubdirs=["stubs_mpi"], unwind=10,
+      unwindset={"MPI_Isend.0": 130, "MPI_Mrecv.0": 130, "memcpy.0": 50, "vin_bytes.0": 50}, timeout=900,
+      bounds="real mpi.c send/receive/drain of one event with a %d-byte payload, its anti-message and a control message over a one-slot wire model; any sender thread < 4096, any colours, arbitrary content" % p)
+    for p in (0, 5, 32, 33, 40)
+]
+SPECS["C02"]["encodes"] += ["distributed/mpi.c:mpi_remote_msg_send", "mpi_remote_anti_msg_send", "mpi_control_msg_send_to", "mpi_remote_msg_handle", "mpi_remote_msg_drain"]
+SPECS["C02"]["assumptions"] += ["<mpi.h> is a stub; the wire is a harness model: one message in flight, delivered as sent (content integrity is MPI's guarantee; delay/reordering are exercised only through the arrival-order cases of the matching queries)"]
